@@ -310,6 +310,8 @@ class CallGraph:
     def callers_of(self, path):
         out = []
         for bp, calls in self.calls.items():
+            if "#inl" in bp:
+                continue        # derived (inlined) bodies are views of real ones, not additional callers
             for c in calls:
                 if (c.target is not None and c.target.path == path) or any(x.path == path for x in c.closures) \
                         or any(x.path == path for x in c.type_targets):
